@@ -394,13 +394,19 @@ def o3(ctx):
             obs.append(Ob('O3', '%s.%s' % (cls, m), ok, '%s.%s does not call self.%s() exactly once' % (cls, m, callee),
                           f.loc()))
     f = ctx.func('recipes.barrier.<locals>.decorator.<locals>.wrapper')
+    # the variable of the decorator that holds the lock object made by lock_factory(...)
+    lock_names = set()
+    for p in ctx.paths(ctx.func('recipes.barrier.<locals>.decorator'), 'plain'):
+        for e in p.trace:
+            if e.kind == 'UCALL' and e.d['callee'].k == 'free' and e.d['callee'].a[0] == 'lock_factory':
+                lock_names |= {k for k, v in p.st.env.items() if v == V('ucall', e.seq)}
     ok, n = True, 0
     for p in ctx.paths(f, 'plain'):
         users = [e for e in p.trace if e.kind == 'UCALL' and e.d['callee'].k == 'free' and e.d['callee'].a[0] == 'func']
         for u in users:
             n += 1
             enters = [e for e in p.trace[:u.seq] if e.kind == 'WITH_ENTER' and e.d['ctx'].k == 'free'
-                      and e.d['ctx'].a[0] == 'lock']
+                      and e.d['ctx'].a[0] in lock_names]
             exits = [e for e in p.trace[:u.seq] if e.kind == 'WITH_EXIT']
             if not enters or exits:
                 ok = False
